@@ -104,6 +104,16 @@ def multiplicity_family():
                 out.append(Sum(Fraction(n, d), frozenset({A})))
                 out.append(Fraction(Fraction(n, d), b))
                 out.append(Product((Fraction(n, d), P(C))))
+                # the repeated factor also as the outer divisor / multiplier of a nested fraction, raw and operator-built
+                out.append(Fraction(Fraction(n, b), a))
+                out.append(Fraction(Fraction(n, d), a))
+                out.append(Fraction(n, Fraction(d, a)))
+                out.append(Fraction(a, Fraction(n, d)))
+                out.append((n / b) / a)
+                out.append(n / (d / a))
+                out.append((n / d) * a)
+                out.append((n / d) / (a / b))
+                out.append((n * b) / (a * d))
     return out
 
 
@@ -117,7 +127,7 @@ def run() -> int:
     ]
     rep.bounds = {
         "expressions": "raw-constructor trees of depth <=3 over names A,B,C (+ intervention X, population tag pi1): 27 leaves (joint, conditional, value-marked, interventional, population-tagged, One, Zero), all products/fractions of two leaves, all sums over 1-2 names; depth 3 = op(depth-2 tree, leaf) in both positions, 3-factor products, sums (quick: every 12th, thorough: every 2nd)",
-        "multiplicity": "fractions whose numerator and denominator share a factor with different multiplicities (5 kinds of factors; raw and operator-built; alone, nested in a fraction, in a product, under a Sum): all, in both tiers",
+        "multiplicity": "fractions whose numerator and denominator share a factor with different multiplicities (5 kinds of factors; raw and operator-built; alone, nested in a fraction - also with the repeated factor as the outer divisor or multiplier -, in a product, under a Sum): all, in both tiers",
         "orderings": "depth<=2: all permutations of the child/parent names; depth 3: alphabetical and reversed; always also the default (ordering=None) and one ordering with two extra variables",
         "distributions": "every (population, intervention assignment) has its own free positive joint over binary variables (z3 Reals); all value assignments of the free variables in one query",
         "PYTHONHASHSEED": hashseed(),
